@@ -4,7 +4,7 @@ from __future__ import annotations
 import ast
 from typing import Any
 
-from .absint import (NOC, Interp, VCls, VConst, VDict, VFun, VList, VNum, VObj, VOpq, VSeqObj,
+from .absint import (NOC, Interp, VCls, VConst, VDict, VFun, VList, VNum, VObj, VOpq, VPartial, VSeqObj,
                      VStr, VTuple, constof, pyconst, strip_optional, _is_hex)
 from .pm import FuncInfo, unparse as src
 from .shapes import EB, EPS, Alt, Lit, Seq, Star, Txt, Unk, alt, factor, items_of, seq
@@ -58,6 +58,8 @@ class Exec(Interp):
                 # current bindings (the interpreter copies environments at branches)
                 fv = VFun(fv.node, env, None)
             return self.call_closure(fv, args, kw, n)
+        if isinstance(fv, VPartial):
+            return self.call_value(fv.fn, list(fv.args) + list(args), {**fv.kw, **kw}, n, env)
         if isinstance(fv, VCls):
             return self.construct(fv.cls, args, kw, n)
         if isinstance(fv, VOpq) and fv.typ.startswith("ext:"):
@@ -90,6 +92,8 @@ class Exec(Interp):
                     return pyconst(getattr(_re, name[3:])(*c))
                 except Exception:
                     pass
+        if name == "functools.partial" and args and isinstance(args[0], (VFun, VCls, VPartial)):
+            return VPartial(args[0], list(args[1:]), dict(kw))
         if name in ("itertools.chain", "itertools.chain.from_iterable") and not kw:
             if name.endswith("from_iterable"):
                 if len(args) == 1 and isinstance(args[0], VTuple):
